@@ -107,6 +107,39 @@ func extractSubFacts(p *core.Prog) (*subFacts, string) {
 			}
 		}
 	}
+	// the request types may come from a package-level list that is ranged over
+	if len(sf.resTypes) == 0 {
+		for _, b := range blocks {
+			for _, in := range b.Instrs {
+				var g *ssa.Global
+				switch x := in.(type) {
+				case *ssa.IndexAddr:
+					g, _ = x.X.(*ssa.Global)
+					if u, ok := x.X.(*ssa.UnOp); ok && g == nil {
+						g, _ = u.X.(*ssa.Global)
+					}
+				case *ssa.Index: // range over an array value
+					if u, ok := x.X.(*ssa.UnOp); ok {
+						g, _ = u.X.(*ssa.Global)
+					}
+				}
+				if g == nil {
+					continue
+				}
+				for _, sv := range globalStrings(g) {
+					dup := false
+					for _, t := range sf.resTypes {
+						if t == sv {
+							dup = true
+						}
+					}
+					if !dup {
+						sf.resTypes = append(sf.resTypes, sv)
+					}
+				}
+			}
+		}
+	}
 	sort.Strings(sf.resTypes)
 	// "access." prefix and ".*" append
 	excluded := map[string]bool{}
@@ -137,12 +170,177 @@ func extractSubFacts(p *core.Prog) (*subFacts, string) {
 			}
 		}
 	}
+	// the access prefix may be a constant handed to the subject-building helper
+	if sf.accessPfx == "" {
+		for _, b := range blocks {
+			for _, in := range b.Instrs {
+				c, ok := in.(*ssa.Call)
+				if !ok {
+					continue
+				}
+				cal := c.Common().StaticCallee()
+				if cal == nil || !buildsSubject[cal] {
+					continue
+				}
+				// the parameter the helper puts in front of the separator
+				typeIdx := -1
+				for _, hb := range cal.Blocks {
+					for _, hin := range hb.Instrs {
+						if bo, ok := hin.(*ssa.BinOp); ok && bo.Op == token.ADD {
+							if sv, ok := core.ConstString(bo.Y); ok && sv == "." {
+								for i, prm := range cal.Params {
+									if bo.X == ssa.Value(prm) {
+										typeIdx = i
+									}
+								}
+							}
+						}
+					}
+				}
+				for i, a := range c.Common().Args {
+					if i != typeIdx {
+						continue
+					}
+					if sv, ok := core.ConstString(a); ok && sv != "" {
+						known := false
+						for _, t := range sf.resTypes {
+							if t == sv {
+								known = true
+							}
+						}
+						if !known {
+							sf.accessPfx = sv
+						}
+					}
+				}
+			}
+		}
+	}
+	// the method wildcard may be conditioned on a package-level set of types (map[string]bool)
+	included := map[string]bool{}
+	viaSet := false
+	for _, b := range blocks {
+		for _, in := range b.Instrs {
+			bo, ok := in.(*ssa.BinOp)
+			if !ok || bo.Op != token.ADD {
+				continue
+			}
+			if sfx, ok := core.ConstString(bo.Y); !ok || sfx != ".*" {
+				// the suffix may be a named constant: same value
+				continue
+			}
+			for _, ed := range dominatingEdges(bo) {
+				cnd, succ := ed.Norm()
+				for _, k := range globalSetKeys(cnd) {
+					if succ == 0 {
+						viaSet = true
+						included[k] = true
+					}
+				}
+			}
+		}
+	}
 	for _, t := range sf.resTypes {
+		if viaSet {
+			if included[t] {
+				sf.methodFor = append(sf.methodFor, t)
+			}
+			continue
+		}
 		if !excluded[t] {
 			sf.methodFor = append(sf.methodFor, t)
 		}
 	}
 	return sf, ""
+}
+
+// globalStrings: the constant strings a package-level array / slice of strings
+// is initialised with (read from the package initialiser).
+func globalStrings(g *ssa.Global) []string {
+	var out []string
+	ini := g.Pkg.Func("init")
+	if ini == nil {
+		return nil
+	}
+	for _, b := range ini.Blocks {
+		for _, in := range b.Instrs {
+			st, ok := in.(*ssa.Store)
+			if !ok {
+				continue
+			}
+			ia, ok := st.Addr.(*ssa.IndexAddr)
+			if !ok {
+				continue
+			}
+			base := ia.X
+			if al, ok := base.(*ssa.Alloc); ok {
+				// slice literal: the backing array is sliced and stored to the global
+				if al.Referrers() != nil {
+					for _, rf := range *al.Referrers() {
+						if sl, ok := rf.(*ssa.Slice); ok && sl.Referrers() != nil {
+							for _, r2 := range *sl.Referrers() {
+								if s2, ok := r2.(*ssa.Store); ok && s2.Addr == ssa.Value(g) {
+									base = g
+								}
+							}
+						}
+					}
+				}
+			}
+			if base != ssa.Value(g) {
+				continue
+			}
+			if sv, ok := core.ConstString(st.Val); ok {
+				out = append(out, sv)
+			}
+		}
+	}
+	return out
+}
+
+// globalSetKeys: cond is a lookup `set[x]` in a package-level map[string]bool;
+// returns the keys the map literal sets to true.
+func globalSetKeys(cond ssa.Value) []string {
+	lk, ok := cond.(*ssa.Lookup)
+	if !ok {
+		if ex, isEx := cond.(*ssa.Extract); isEx {
+			lk, ok = ex.Tuple.(*ssa.Lookup)
+		}
+		if !ok {
+			return nil
+		}
+	}
+	u, ok := lk.X.(*ssa.UnOp)
+	if !ok {
+		return nil
+	}
+	g, ok := u.X.(*ssa.Global)
+	if !ok {
+		return nil
+	}
+	ini := g.Pkg.Func("init")
+	if ini == nil {
+		return nil
+	}
+	var mm ssa.Value
+	for _, b := range ini.Blocks {
+		for _, in := range b.Instrs {
+			if st, ok := in.(*ssa.Store); ok && st.Addr == ssa.Value(g) {
+				mm = st.Val
+			}
+		}
+	}
+	var out []string
+	for _, b := range ini.Blocks {
+		for _, in := range b.Instrs {
+			if mu, ok := in.(*ssa.MapUpdate); ok && mu.Map == mm && isConstBool(mu.Value, true) {
+				if k, ok := core.ConstString(mu.Key); ok {
+					out = append(out, k)
+				}
+			}
+		}
+	}
+	return out
 }
 
 func c05(r *core.Run) {
@@ -153,6 +351,7 @@ func c05(r *core.Run) {
 
 	r.Rule("M1", "field table: every field of the decoded payload struct is copied exactly once into one request field, each such field is returned by exactly one exported accessor, the map is injective; resource name/params/group/handler/listeners come from the routed Match and the subject; payload JSON keys agree with the client package's Request", 15)
 	r.Rule("M2", "payload decoding: the payload struct is filled by encoding/json.Unmarshal - which validates the whole input, unlike a streaming Decoder that stops after the first value - applied to the message's Data bytes, and its error edge replies with an error before dispatch ('payload not JSON' -> system.internalError)", 2)
+	r.Rule("M4", "the handler of the selected pattern (shared with C06.R1): the trie matcher tries literal, placeholder, wildcard in that order and a failed recursive match falls through to the next candidate - its result is branched on, never returned unconditionally; otherwise a name that follows a more specific branch and dead-ends there gets system.notFound although a registered pattern matches it, and no handler is invoked", 4)
 	r.Rule("M3", "path parameters as sent (shared with C06.R4): the match record's node, mount index and params are written together at each accept site and rebased with that same mount index, and the Match handed to request processing takes its params from that record; a mount index that survives backtracking shifts every path parameter", 6)
 	r.Rule("M4", "routing input is private to a lookup (shared with C06.R6): no function reachable from Mux.GetHandler writes Mux / node / handler state or appends into a slice held there; lookups run concurrently (listener, With, Resource), so a shared scratch buffer would route a request with another name's tokens and hand the handler foreign path parameters", 1)
 	r.Rule("D1", "exhaustive dispatch: the request-type constants the dispatcher switches on = the request types subscribe() subscribes to", 1)
@@ -164,6 +363,7 @@ func c05(r *core.Run) {
 
 	root := p.FuncsOfPkg("")
 	if ro := resolveMuxRolesFor(r, "M3"); ro != nil {
+		c06Specificity(r, "M4", ro)
 		c06MatchAssembly(r, "M3", root, ro)
 	}
 	c06PureLookup(r, "M4")
@@ -497,6 +697,19 @@ func c05(r *core.Run) {
 					}
 					if s, ok := core.ConstString(bo.Y); ok && b.Succs[0] == cc.Block() {
 						strip[s] = true
+					}
+				}
+			}
+		}
+		// (the condition may be membership in a package-level set of types)
+		for _, cc := range helperCalls(p, h) {
+			if cal := cc.Common().StaticCallee(); cal != nil && cal.String() == "strings.LastIndexByte" {
+				for _, ed := range dominatingEdges(cc) {
+					cnd, succ := ed.Norm()
+					if succ == 0 {
+						for _, k := range globalSetKeys(cnd) {
+							strip[k] = true
+						}
 					}
 				}
 			}
